@@ -33,8 +33,7 @@ CHECKS = {
              'names): deleting focus leaves exactly its content (pruned !call nodes must not run), protected older entries survive exactly when '
              'strictly higher in priority, !merge combines key-/index-wise under the documented flag inheritance, !clear empties, value-less !del removes.',
         note='Direct per-sub-domain oracles instead of a full merge model; overlaps the statement leaves open are skipped and counted. '
-             'Open known finding list-element-survivor-shift (lists with some !force elements lose un-outranked newer elements), attributed only '
-             'when the result equals the modelled index-shift behaviour and the root-cause probe saw a partial list removal.',
+             'Sub-check (e) asserts the exact positions of protected and newer list elements (the former open finding there is repaired).',
         design='4/C04'),
     'C05': dict(
         technique='property-based metamorphic testing (Hypothesis): build(D_i) vs build({k..: D_i}) vs build with unrelated sibling content vs build with keys renamed injectively, plus a frame relation against build(D_1..D_n-1)',
